@@ -18,7 +18,8 @@ impl Pat {
       Pat::Wild => Some(vec![]),
       Pat::Lit(k) => if args.len() == 1 && args[0] == *k { Some(vec![]) } else { None },
       Pat::Var(n) => if args.len() == 1 { Some(vec![(*n, args[0])]) } else { None },
-      Pat::Tup(ps) => { if ps.len() != args.len() { return None; } let mut b = vec![]; for (p, a) in ps.iter().zip(args.iter()) { b.extend(p.matches(&[*a])?); } Some(b) }
+      // a variable named twice in one pattern matches only equal parts
+      Pat::Tup(ps) => { if ps.len() != args.len() { return None; } let mut b: Vec<(&'static str, u64)> = vec![]; for (p, a) in ps.iter().zip(args.iter()) { for (n, v) in p.matches(&[*a])? { if let Some((_, v0)) = b.iter().find(|(k, _)| *k == n) { if *v0 != v { return None; } } else { b.push((n, v)); } } } Some(b) }
     }
   }
 }
@@ -26,7 +27,7 @@ impl Pat {
 /// arm body: constant tag plus every variable the pattern binds, weighted by its position (so that each binding is observable)
 fn body(tag: u64, pat: &Pat) -> (String, Box<dyn Fn(&[(&'static str, u64)]) -> u64>) {
   fn vars(p: &Pat, out: &mut Vec<&'static str>) { match p { Pat::Var(n) => out.push(*n), Pat::Tup(v) => v.iter().for_each(|q| vars(q, out)), _ => {} } }
-  let mut vs = Vec::new(); vars(pat, &mut vs);
+  let mut vs = Vec::new(); vars(pat, &mut vs); { let mut seen: Vec<&'static str> = Vec::new(); vs.retain(|v| if seen.contains(v) { false } else { seen.push(*v); true }); }
   let w = [1u64, 10, 1000];
   let mut txt = format!("{}u64", tag);
   for (i, n) in vs.iter().enumerate() { if i == 0 { txt.push_str(&format!(" + {}", n)); } else { txt.push_str(&format!(" + {}u64 * {}", w[i.min(2)], n)); } }
@@ -57,6 +58,15 @@ fn push_arm_family(out: &mut Vec<Case>, cellname: &str, arms: &[Pat], nargs: usi
       let argtxt = args.iter().map(|a| format!("{}u64", a)).collect::<Vec<_>>().join(", ");
       let src = if as_match { let subject = if nargs == 1 { argtxt.clone() } else { format!("({})", argtxt) }; format!("r := {}?\n{}.", subject, arm_txt.join("\n")) } else { format!("fam({})", argtxt) };
       calls.push(json!({"src": src, "expect": expect, "args": args}));
+      // the same call with arguments held in variables (all, only the first, only the last), chosen by position
+      let ci = calls.len();
+      let form = (pi + ci) % 3;
+      let names: Vec<String> = (0..args.len()).map(|j| format!("q{}x{}", ci, j)).collect();
+      let held: Vec<bool> = (0..args.len()).map(|j| match form { 0 => true, 1 => j == 0, _ => j + 1 == args.len() }).collect();
+      let prelude = args.iter().enumerate().filter(|(j, _)| held[*j]).map(|(j, a)| format!("{} := {}u64", names[j], a)).collect::<Vec<_>>().join("\n");
+      let argtxt2 = args.iter().enumerate().map(|(j, a)| if held[j] { names[j].clone() } else { format!("{}u64", a) }).collect::<Vec<_>>().join(", ");
+      let src2 = if as_match { let subject = if nargs == 1 { argtxt2.clone() } else { format!("({})", argtxt2) }; format!("r := {}?\n{}.", subject, arm_txt.join("\n")) } else { format!("fam({})", argtxt2) };
+      calls.push(json!({"src": src2, "expect": expect, "args": args, "prelude": prelude, "form": format!("vars{}", form)}));
     }
     let order = perm.iter().map(|p| p.text()).collect::<Vec<_>>().join(" ; ");
     out.push(Case { id: format!("{};perm={};order={}", cellname, pi, order), cell: cellname.to_string(), input: json!({"mode": "arms", "def": if as_match { J::Null } else { json!(def) }, "calls": calls, "as_match": as_match, "has_wild": has_wild}) });
@@ -100,6 +110,16 @@ impl Prop for C16 {
       ("f2x;arms=(1,p),(p,q),(q,p)", vec![Tup(vec![Lit(1), Var("p")]), Tup(vec![Var("p"), Lit(0)]), Tup(vec![Var("q"), Var("p")])]),
     ];
     for (name, arms) in fams2x.iter() { push_arm_family(&mut out, &format!("function;{}", name), arms, 2, false); push_arm_family(&mut out, &format!("match;{}", name), arms, 2, true); }
+    // a variable named twice in one pattern (an equality constraint between the matched parts)
+    let fams2r: Vec<(&str, Vec<Pat>)> = vec![
+      ("f2r;arms=(a,a),(a,b)", vec![Tup(vec![Var("a"), Var("a")]), Tup(vec![Var("a"), Var("b")])]),
+      ("f2r;arms=(a,a),wild", vec![Tup(vec![Var("a"), Var("a")]), Wild]),
+      ("f2r;arms=(0,a),(a,a),(a,b)", vec![Tup(vec![Lit(0), Var("a")]), Tup(vec![Var("a"), Var("a")]), Tup(vec![Var("a"), Var("b")])]),
+      ("f2r;arms=(a,a),(1,b),wild", vec![Tup(vec![Var("a"), Var("a")]), Tup(vec![Lit(1), Var("b")]), Wild]),
+    ];
+    for (name, arms) in fams2r.iter() { push_arm_family(&mut out, &format!("function;{}", name), arms, 2, false); push_arm_family(&mut out, &format!("match;{}", name), arms, 2, true); }
+    let famsr3: Vec<(&str, Vec<Pat>)> = vec![("f23r;arms=(a,b,a),(a,a),wild", vec![Tup(vec![Var("a"), Var("b"), Var("a")]), Tup(vec![Var("a"), Var("a")]), Wild])];
+    for (name, arms) in famsr3.iter() { push_arm_family(&mut out, &format!("match;{}", name), arms, 23, true); }
     // tuple patterns of different arity against subjects of both arities (match expressions)
     let famsm: Vec<(&str, Vec<Pat>)> = vec![
       ("f23;arms=(a,b),(a,b,c),wild", vec![Tup(vec![Var("a"), Var("b")]), Tup(vec![Var("a"), Var("b"), Var("c")]), Wild]),
